@@ -253,8 +253,14 @@ def cases(seed, tier):
     # object fields
     objs = [[("a", ELTS[0])], [("a", ELTS[0]), ("b", ("arr", ELTS[1], 2)), ("c", S("Const", "Int"))],
             [("k1", ("nt", [ELTS[0]]))]]
+    # field names that read like attributes a collection class has or might get (ninth seeding round): a declared
+    # field is a field whatever its name (the names the classes do define today are in Model/Trace.v reserved_attr)
+    ATTR_LIKE = ["size", "id", "name", "type", "length", "count", "keys", "items", "value", "index", "mode", "party",
+                 "inner_type", "source_ref", "fields", "key", "args", "fn", "left", "right", "ty", "base_type", "elements", "shape"]
+    objs.append([(nm, ELTS[j % 2]) for j, nm in enumerate(ATTR_LIKE[:12])])
+    objs.append([(nm, ELTS[(j + 1) % 2]) for j, nm in enumerate(ATTR_LIKE[12:])])
     for fs in objs:
-        for k in [k for k, _ in fs] + ["zz", "A", "__x__", "a_"]:
+        for k in [k for k, _ in fs] + (["zz", "A", "__x__", "a_"] if len(fs) < 6 else ["sizes"]):
             b = B()
             x = b.value(("obj", fs))
             b.st.append({"k": "fld", "x": "r", "a": x, "f": k})
